@@ -4,6 +4,7 @@ import (
 	"crypto/tls"
 	"errors"
 	"fmt"
+	"hash/crc32"
 	"io"
 	"math/rand"
 	"net"
@@ -34,7 +35,7 @@ type sessionStream struct{}
 
 func (sessionStream) Name() string { return "session" }
 func (sessionStream) Rule() string {
-	return "route tables of 0..6 registrations of every kind (criteria over an alphabet with case variants, default and unbind routes, re-registrations) x a script of 0..3 responses per handler (every constructor, random option subsets and orders, setter sequences, controls, attributes) x 1..8 requests of every kind with distinct message ids (half from the routing alphabet, half fully random incl. controls), ended by close / Unbind (+ trailing requests or garbage in the same write) / an unsupported operation / a bind with version 2 / garbage / a half frame; plain and TLS listeners, with and without (long) read / write timeouts configured; lock-step (byte-exact, in order) and pipelined (multiset) clients; oracle (independent of the model): handler invocations (which handler, which message id, in which order) equal those of a reference router over the generator's own request values, every frame strictly parses to the view the script describes with the request's message id, refusals carry the request's id / unwillingToPerform / the operation's response tag, nothing is served after the ending frame; non-trivial = at least one handler invocation"
+	return "route tables of 0..6 registrations of every kind (criteria over an alphabet with case variants, default and unbind routes, re-registrations) x a script of 0..3 responses per handler (every constructor, random option subsets and orders, setter sequences, controls, attributes) x 1..8 requests of every kind with distinct message ids (half from the routing alphabet, half fully random incl. controls), ended by close / Unbind (+ trailing requests or garbage in the same write) / an unsupported operation / a bind with version 2 / garbage / a half frame; plain and TLS listeners, with and without (long) read / write timeouts configured; lock-step (byte-exact, in order) and pipelined (multiset) clients, writing whole frames or slicing every write into 3..7 pieces with pauses; oracle (independent of the model): handler invocations (which handler, which message id, in which order) equal those of a reference router over the generator's own request values, every frame strictly parses to the view the script describes with the request's message id, refusals carry the request's id / unwillingToPerform / the operation's response tag, nothing is served after the ending frame; non-trivial = at least one handler invocation"
 }
 
 type sessReq struct {
@@ -157,6 +158,9 @@ func (sessionStream) Generate(rng *rand.Rand, n int, thorough bool) []Case {
 		}
 		if rng.Intn(4) == 0 {
 			mode += "+late" // the routes are registered when the client is already connected
+		}
+		if rng.Intn(5) == 0 {
+			mode += "+slice" // every write goes out in several pieces with pauses in between
 		}
 		if rng.Intn(4) == 0 {
 			mode += "+to" // read and write timeouts configured, far too long to fire: nothing may change
@@ -577,15 +581,31 @@ func (sessionStream) Impl(c Case) string {
 	ended := func() bool {
 		return sut.tr.Count("loop.unbind", 1) > 0 || sut.tr.Count("loop.readerr", 1) > 0 || sut.tr.Count("conn.recovered", 1) > 0
 	}
+	sendAll := cl.send
+	if strings.Contains(mode, "+slice") {
+		sendAll = func(b []byte) error {
+			n := 3 + int(crc32.ChecksumIEEE(b)%5)
+			for i := 0; i < n; i++ {
+				lo, hi := len(b)*i/n, len(b)*(i+1)/n
+				if hi > lo {
+					if err := cl.send(b[lo:hi]); err != nil {
+						return err
+					}
+					time.Sleep(300 * time.Microsecond)
+				}
+			}
+			return nil
+		}
+	}
 	if pipe {
-		if err := cl.send(input); err != nil {
+		if err := sendAll(input); err != nil {
 			return "err send: " + err.Error()
 		}
 		halfClose()
 	} else {
 		pieces := splitStream(input)
 		for i, p := range pieces {
-			if err := cl.send(p); err != nil {
+			if err := sendAll(p); err != nil {
 				break
 			}
 			if i == len(pieces)-1 {
